@@ -95,6 +95,55 @@ fn check_history(rep: &Report, h: &ZobristHasher, root_fen: &str, startpos: bool
     Some((board, table, seq))
 }
 
+/// A long legal game from the start position built with the rules oracle: quiet piece moves to the
+/// least-visited position, and every `period` plies a pawn move or a capture (whichever leads to the
+/// least-visited position). Returns the moves and the ply counts right after each irreversible move.
+fn mixed_long_game(plies: usize, period: usize) -> (Vec<Mv>, Vec<usize>) {
+    let mut pos = Pos::from_fen("rnbqkbnr/pppppppp/8/8/8/8/PPPPPPPP/RNBQKBNR w KQkq - 0 1").unwrap();
+    let mut seen: HashMap<Pos, u32> = HashMap::new();
+    seen.insert(pos, 1);
+    let mut moves = Vec::new();
+    let mut cuts = Vec::new();
+    while moves.len() < plies {
+        let want_irreversible = moves.len() % period == period - 1;
+        let mut best: Option<(u32, bool, Mv, Pos)> = None;
+        for mv in pos.legal_moves() {
+            let irreversible = pos.is_capture(&mv) || rules::kind_of(pos.b[mv.from as usize]) == rules::P;
+            let nx = pos.make(&mv);
+            if nx.legal_moves().is_empty() || nx.b.iter().filter(|x| **x != 0).count() < 4 {
+                continue; // keep the game going (and keep material to move around)
+            }
+            let n = *seen.get(&nx).unwrap_or(&0);
+            // order: the wanted kind first, then least visited — except that every fifth ply goes back to
+            // the most visited position on offer, so that the record holds counts above one as well
+            let back = moves.len() % 5 == 4 && !want_irreversible;
+            let rank = |n: u32| if back { 1000 - n.min(1000) } else { n };
+            let key = (if irreversible == want_irreversible { 0 } else { 1 }, rank(n));
+            let better = match &best {
+                None => true,
+                Some((bn, bi, _, _)) => key < (if *bi == want_irreversible { 0 } else { 1 }, rank(*bn)),
+            };
+            if better {
+                best = Some((n, irreversible, mv, nx));
+            }
+        }
+        let (n, irreversible, mv, nx) = match best {
+            Some(b) => b,
+            None => break,
+        };
+        if n >= 100 {
+            break; // the statement's quantifier stops at 100 repetitions
+        }
+        *seen.entry(nx).or_insert(0) += 1;
+        moves.push(mv);
+        if irreversible {
+            cuts.push(moves.len());
+        }
+        pos = nx;
+    }
+    (moves, cuts)
+}
+
 pub fn run(rep: &Report, session_part: Option<&dyn Fn(&Report) -> (u64, u64)>) -> i32 {
     let quick = rep.quick();
     let h = ZobristHasher::create_zobrist_hasher();
@@ -234,6 +283,49 @@ pub fn run(rep: &Report, session_part: Option<&dyn Fn(&Report) -> (u64, u64)>) -
             }
         }
     }
+
+    // ---- A3: long games (hundreds to thousands of plies, hundreds of distinct positions) in which quiet
+    // shuffling is interrupted by a pawn move or a capture every `period` plies: whatever the engine does to
+    // keep its record small in long games must keep the counts exact. Every game is checked as a whole and at
+    // prefixes cut right after each irreversible move and a few plies later.
+    let long_specs: Vec<(usize, usize)> = if quick { vec![(300, 37), (700, 97)] } else { vec![(300, 37), (700, 97), (1500, 61), (3000, 149), (3000, 301)] };
+    let long_games: Vec<(Vec<Mv>, Vec<usize>)> = long_specs.iter().map(|(n, per)| mixed_long_game(*n, *per)).collect();
+    let long_checked = AtomicU64::new(0);
+    let long_distinct = AtomicU64::new(0);
+    {
+        let mut jobs: Vec<(usize, usize)> = Vec::new();
+        for (gi, (moves, cuts)) in long_games.iter().enumerate() {
+            jobs.push((gi, moves.len()));
+            for c in cuts {
+                for extra in [0usize, 1, 2, 9] {
+                    if c + extra <= moves.len() {
+                        jobs.push((gi, c + extra));
+                    }
+                }
+            }
+        }
+        let idx = AtomicUsize::new(0);
+        std::thread::scope(|s| {
+            for _ in 0..threads() {
+                s.spawn(|| loop {
+                    let i = idx.fetch_add(1, Ordering::Relaxed);
+                    if i >= jobs.len() {
+                        break;
+                    }
+                    let (gi, len) = jobs[i];
+                    paths.fetch_add(1, Ordering::Relaxed);
+                    edges.fetch_add(len as u64, Ordering::Relaxed);
+                    if let Some((_, table, _)) = check_history(rep, &h, "rnbqkbnr/pppppppp/8/8/8/8/PPPPPPPP/RNBQKBNR w KQkq - 0 1", true, &long_games[gi].0[..len]) {
+                        long_checked.fetch_add(1, Ordering::Relaxed);
+                        max_count.fetch_max(table.table.values().max().copied().unwrap_or(0) as u64, Ordering::Relaxed);
+                        long_distinct.fetch_max(table.table.len() as u64, Ordering::Relaxed);
+                    }
+                });
+            }
+        });
+    }
+    rep.add("long_game_prefixes_checked", long_checked.load(Ordering::Relaxed));
+    rep.add("most_distinct_positions_in_one_record", long_distinct.load(Ordering::Relaxed));
 
     // ---- B: the draw rule in search, from every collected history
     let search_set = search_set.into_inner().unwrap();
